@@ -5,11 +5,13 @@ let freed l = "freed=[" ^ join sz l ^ "]"
 let cmp_key a b = (int_of_z a) mod 8 = (int_of_z b) mod 8
 let opt_z = function None -> "X" | Some d -> sz d
 
-(* split off a trailing F (malloc failure during this op) *)
-let split_fail ws =
+(* split off a trailing F (malloc failure during this op) / B (no free-data callback: borrowed data);
+   -> (words, malloc ok, callback supplied) *)
+let split_flags ws =
   match List.rev ws with
-  | "F" :: r -> (List.rev r, false)
-  | _ -> (ws, true)
+  | "F" :: r -> (List.rev r, false, true)
+  | "B" :: r -> (List.rev r, true, false)
+  | _ -> (ws, true, true)
 
 (* ---- array list ---- *)
 let al_dump s =
@@ -18,13 +20,13 @@ let al_dump s =
   Printf.sprintf "sz=%d cap=%s empty=%d c=[%s] ix=[%s]" n (sz s.acap) (if n = 0 then 1 else 0)
     (join sz (al_contents s)) (String.concat "," ix)
 
-let al_line s ws ok =
+let al_line s ws ok cb =
   match ws with
   | ["ins"; i; d] -> let (s', r) = al_insert s (z_of_string i) (z_of_string d) ok in (s', "r=" ^ opt_z r, [])
   | ["app"; i; d] -> let (s', r) = al_append s (z_of_string i) (z_of_string d) ok in (s', "r=" ^ opt_z r, [])
-  | ["rem"; i] -> let ((s', b), f) = al_remove s (z_of_string i) in (s', "r=" ^ string_of_bool01 b, f)
+  | ["rem"; i] -> let ((s', b), f) = al_remove s (z_of_string i) cb in (s', "r=" ^ string_of_bool01 b, f)
   | ["find"; i; d] -> (s, "r=" ^ sz (al_find cmp_key s (z_of_string i) (z_of_string d)), [])
-  | ["clear"] -> let (s', f) = al_clear s in (s', "r=-", f)
+  | ["clear"] -> let (s', f) = al_clear s cb in (s', "r=-", f)
   | ["ens"; c] -> let (s', b) = al_ensure s (z_of_string c) ok in (s', "r=" ^ string_of_bool01 b, [])
   | _ -> (s, "r=?", [])
 
@@ -34,11 +36,11 @@ let st_dump s =
   Printf.sprintf "sz=%d cap=%s empty=%d c=[%s] top=%s" n (sz s.scap) (if n = 0 then 1 else 0)
     (join sz (st_contents s)) (opt_z (st_top s))
 
-let st_line s ws ok =
+let st_line s ws ok cb =
   match ws with
   | ["push"; d] -> let (s', r) = st_push s (z_of_string d) ok in (s', "r=" ^ opt_z r, [])
-  | ["pop"] -> let (s', f) = st_pop s in (s', "r=-", f)
-  | ["clear"] -> let (s', f) = st_clear s in (s', "r=-", f)
+  | ["pop"] -> let (s', f) = st_pop s cb in (s', "r=-", f)
+  | ["clear"] -> let (s', f) = st_clear s cb in (s', "r=-", f)
   | ["ens"; c] -> let (s', b) = st_ensure s (z_of_string c) ok in (s', "r=" ^ string_of_bool01 b, [])
   | _ -> (s, "r=?", [])
 
@@ -58,7 +60,7 @@ let ll_node s p =
     let k = int_of_string p in
     if k < 0 || k >= int_of_z s.hsize then None else Some (hl_at s (z_of_int k))
 
-let ll_line s ws ok =
+let ll_line s ws ok cb =
   match ws with
   | ["ins"; p; d] ->
     (match ll_node s p with
@@ -70,13 +72,13 @@ let ll_line s ws ok =
      | Some node -> let (s', r) = hl_append s node (z_of_string d) ok in (s', "r=" ^ opt_z r, []))
   | ["rem"; p] ->
     (match ll_node s p with
-     | Some (Some n) -> let ((s', r), f) = hl_remove s n in (s', "r=" ^ opt_z r, f)
+     | Some (Some n) -> let ((s', r), f) = hl_remove s n cb in (s', "r=" ^ opt_z r, f)
      | _ -> (s, "badpos", []))
   | ["find"; p; d] ->
     (match ll_node s p with
      | None -> (s, "badpos", [])
      | Some node -> (s, "r=" ^ opt_z (hl_find cmp_key s node (z_of_string d)), []))
-  | ["clear"] -> (match hl_clear s with Some (s', f) -> (s', "r=-", f) | None -> (s, "STUCK", []))
+  | ["clear"] -> (match hl_clear s cb with Some (s', f) -> (s', "r=-", f) | None -> (s, "STUCK", []))
   | _ -> (s, "r=?", [])
 
 (* ---- queue (heap level) ---- *)
@@ -85,19 +87,26 @@ let qu_dump s =
   Printf.sprintf "sz=%s empty=%d fw=[%s] bw=%s front=%s" (sz s.hsize) (if hl_is_empty s then 1 else 0)
     (join item fw) (bw_ok fw (hl_backward s)) (match hq_front s with None -> "X" | Some x -> item x)
 
-let qu_line s ws ok =
+let qu_line s ws ok cb =
   match ws with
   | ["enq"; d] -> let (s', r) = hq_enqueue s (z_of_string d) ok in (s', "r=" ^ opt_z r, [])
-  | ["deq"] -> let (s', f) = hq_dequeue s in (s', "r=-", f)
-  | ["clear"] -> (match hq_clear s with Some (s', f) -> (s', "r=-", f) | None -> (s, "STUCK", []))
+  | ["deq"] -> let (s', f) = hq_dequeue s cb in (s', "r=-", f)
+  | ["clear"] -> (match hq_clear s cb with Some (s', f) -> (s', "r=-", f) | None -> (s, "STUCK", []))
   | _ -> (s, "r=?", [])
 
 (* ---- pointer slot (cursor part functional, head..tail list at heap level) ---- *)
 let data_or_x d = if d = Z0 then "X" else sz d
+let ps_dense = 4096
 let ps_dump s =
   let cap = int_of_z s.hcore.pcap in
-  let gets = List.init (cap + 2) (fun i -> match hps_get s (z_of_int i) with None -> "OOB" | Some d -> data_or_x d) in
   let it = hps_iter s in
+  let get i = match hps_get s (z_of_int i) with None -> "OOB" | Some d -> data_or_x d in
+  let gets =
+    if cap <= ps_dense then List.init (cap + 2) get
+    else
+      (* big slot: indices 0..15, every live index (iteration order), capacity-2 .. capacity+1, as i=value *)
+      List.map (fun i -> string_of_int i ^ "=" ^ get i)
+        (List.init 16 (fun i -> i) @ List.map (fun (sid, _) -> int_of_z sid) it @ List.init 4 (fun k -> cap - 2 + k)) in
   Printf.sprintf "cap=%d it=[%s] bw=%s get=[%s]" cap (join item it) (bw_ok it (hps_backward s)) (String.concat "," gets)
 
 let pres_s = function POk -> "ok" | PFull -> "full" | PRange -> "range" | PDup -> "dup"
@@ -122,11 +131,15 @@ let ps_line s ws =
 (* ---- protocol ---- *)
 type st = NoC | AL of alist | ST of stack | LL of hlist | QU of hlist | PS of hpslot | Oob
 
+(* the C driver refuses every malloc above 16 MiB; a pointer slot needs 32 + 8 bytes per (rounded) entry.
+   The generator stays away from the boundary (requests <= 131072 or >= 2^24). *)
+let ps_malloc_ok req = int_of_z req <= 524288
+
 let handle (lines : string list) : unit =
   match lines with
   | [] -> ()
   | hd :: ops ->
-    let (ws, ok) = split_fail (words hd) in
+    let (ws, ok, _) = split_flags (words hd) in
     let state =
       match ws with
       | ["al"; c] -> (match al_init (z_of_string c) ok with Some s -> print_endline ("init ok | " ^ al_dump s); AL s | None -> NoC)
@@ -134,7 +147,7 @@ let handle (lines : string list) : unit =
       | ["ll"; c] -> (match hl_init (z_of_string c) ok with Some s -> print_endline ("init ok | " ^ ll_dump s); LL s | None -> NoC)
       | ["qu"; c] -> (match hq_init (z_of_string c) ok with Some s -> print_endline ("init ok | " ^ qu_dump s); QU s | None -> NoC)
       | "ps" :: c :: rest ->
-        (match hps_init (u32 (z_of_string c)) ok with
+        (match hps_init (u32 (z_of_string c)) (ok && ps_malloc_ok (u32 (z_of_string c))) with
          | Some s ->
            let s = (match rest with p :: _ when p <> "-" -> hps_preset s (z_of_string p) | _ -> s) in
            print_endline ("init ok | " ^ ps_dump s); PS s
@@ -142,29 +155,35 @@ let handle (lines : string list) : unit =
       | _ -> print_endline "init ?"; Oob in
     (match state with NoC -> print_endline "init fail" | _ -> ());
     let state = ref state in
+    (* destroy = clear + release of the storage: the callback (if any) gets every remaining non-NULL datum *)
+    let destroy st cb =
+      match st with
+      | AL s -> Some (freed (snd (al_clear s cb)))
+      | ST s -> Some (freed (snd (st_clear s cb)))
+      | LL s -> Some (match hl_clear s cb with Some (_, f) -> freed f | None -> "STUCK")
+      | QU s -> Some (match hq_clear s cb with Some (_, f) -> freed f | None -> "STUCK")
+      | _ -> None in
     List.iter (fun l ->
-      let (ws, ok) = split_fail (words l) in
-      match !state with
-      | NoC -> print_endline "nocontainer"
-      | Oob -> print_endline "OOB"
-      | AL s -> let (s', r, f) = al_line s ws ok in state := AL s';
+      let (ws, ok, cb) = split_flags (words l) in
+      match !state, ws with
+      | (AL _ | ST _ | LL _ | QU _), ["destroy"] ->
+        (match destroy !state cb with Some f -> print_endline ("r=- | destroyed | " ^ f) | None -> ());
+        state := NoC
+      | NoC, _ -> print_endline "nocontainer"
+      | Oob, _ -> print_endline "OOB"
+      | AL s, _ -> let (s', r, f) = al_line s ws ok cb in state := AL s';
         print_endline (r ^ " | " ^ al_dump s' ^ " | " ^ freed f)
-      | ST s -> let (s', r, f) = st_line s ws ok in state := ST s';
+      | ST s, _ -> let (s', r, f) = st_line s ws ok cb in state := ST s';
         print_endline (r ^ " | " ^ st_dump s' ^ " | " ^ freed f)
-      | LL s -> let (s', r, f) = ll_line s ws ok in state := LL s';
+      | LL s, _ -> let (s', r, f) = ll_line s ws ok cb in state := LL s';
         print_endline (r ^ " | " ^ ll_dump s' ^ " | " ^ freed f)
-      | QU s -> let (s', r, f) = qu_line s ws ok in state := QU s';
+      | QU s, _ -> let (s', r, f) = qu_line s ws ok cb in state := QU s';
         print_endline (r ^ " | " ^ qu_dump s' ^ " | " ^ freed f)
-      | PS s ->
+      | PS s, _ ->
         (match ps_line s ws with
          | None -> state := Oob; print_endline "OOB"
          | Some (s', r) -> state := PS s'; print_endline (r ^ " | " ^ ps_dump s'))) ops;
-    (* destroy: the callback gets every remaining non-NULL datum *)
-    (match !state with
-     | AL s -> print_endline ("end " ^ freed (snd (al_clear s)))
-     | ST s -> print_endline ("end " ^ freed (snd (st_clear s)))
-     | LL s -> print_endline ("end " ^ (match hl_clear s with Some (_, f) -> freed f | None -> "STUCK"))
-     | QU s -> print_endline ("end " ^ (match hq_clear s with Some (_, f) -> freed f | None -> "STUCK"))
-     | _ -> ())
+    (* end of the case: a container still alive is destroyed with the callback *)
+    (match destroy !state true with Some f -> print_endline ("end " ^ f) | None -> ())
 
 let () = run_cases handle
